@@ -10,13 +10,21 @@ def check(tier, seed, only=None):
         ("submit", "tape", "reference_loose", "per_param"),
         ("resubmit", "tape", "reference_loose", "per_param"),
         ("flush", "tape", "reference_loose", "per_param"),
-    ], only)
+    ], only, extra=p_ctx_common.base_jobs(
+        tier, ("init_digest", "init", "update", "final", "submit"),
+        compress_quick=("sha256_base",),
+        compress_thorough=("sha1_base", "sha256_base", "sha512_base", "md5_base", "sm3_base")))
     rep.default_replays()
+    p_ctx_common.add_mgr_bounded(rep, tier, seed)
     rep.notes.append(
         "closing lemma (definition of the iterated hash, not machine checked): the blocks handed to the compression "
         "side for a context are exactly M||pad(|M|) in order (tape obligations for an arbitrary stream position g_P), "
         "the chaining value starts at the standard IV and is written by nobody but the compression side (digest-word "
         "ghost for an arbitrary word g_W), hence digest = H_std(M)")
+    rep.notes.append(
+        "compression functions: the C ones (X_single of *_ctx_base.c) are PROVED equal to the standards round by round "
+        "(jobs compress/*, spec/round_specs.h validated against the standards' printed example digests by spec/selftest.c); "
+        "the SIMD ones are assembly: assumed, and checked natively (bounded) by native/mgr_diff")
     return rep.finish(p_ctx_common.CHECKER,
                       "leaf functions of every context file; tape aspect of submit/resubmit/flush: reference instance + "
                       "every textually different instance (quick), one instance per parameter set (thorough)")
